@@ -76,6 +76,9 @@ def expandFn (v : Variant) (attrToks : Toks) (f : FnItem) : Outcome :=
         | .error site => .panic site
         | .ok implBlock => .ok (.fnOut f [.trait traitDef, .impl implBlock])
 
+/-- the attribute lists of the functions of a module / impl body that become methods -/
+def bodyFnAttrs (items : List BodyItem) : List (List Attr) := (items.filterMap BodyItem.fn?).map (·.attrs)
+
 /-! ### mod -/
 
 def msgNotAllowedHere : String := "Not allowed here"
@@ -91,7 +94,8 @@ def expandMod (v : Variant) (attrToks : Toks) (m : ModItemIn) : Outcome :=
       let sigs := (items.filterMap BodyItem.fn?).map (·.sig)
       match analyzeFns .selfRef opts sigs {} with
       | .error e => .ofErr e
-      | .ok (fns, tg) =>
+      | .ok (fns0, tg) =>
+        let fns := attachCfg (bodyFnAttrs items) fns0
         match detectDepMode .module fns with
         | .error e => .ofErr e
         | .ok depMode =>
@@ -254,7 +258,8 @@ def expandImpl (v : Variant) (attrToks : Toks) (m : ImplItemIn) : Outcome :=
       let sigs := (items.filterMap BodyItem.fn?).map (·.sig)
       match analyzeFns kind opts sigs {} with
       | .error e => .ofErr e
-      | .ok (fns, tg) =>
+      | .ok (fns0, tg) =>
+        let fns := attachCfg (bodyFnAttrs items) fns0
         match detectDepMode .implBlock fns with
         | .error e => .ofErr e
         | .ok depMode =>
